@@ -701,7 +701,7 @@ async def _one_object(env: dict, cfgobj: Any, case: dict, cycles: list[dict]) ->
                         if c["wake2"] == 0:
                             wakeup.set()
                         else:
-                            loop.call_at(loop.time() + sec(c["wake2"]), wakeup.set)
+                            marks["h2"] = loop.call_at(loop.time() + sec(c["wake2"]), wakeup.set)
                     if c["body"] == "error":
                         raise _Interest("scripted")
                     if c["body"] == "foreign":
@@ -720,6 +720,8 @@ async def _one_object(env: dict, cfgobj: Any, case: dict, cycles: list[dict]) ->
             escaped = "exception"
         if h1 is not None:
             h1.cancel()
+        if marks.get("h2") is not None:
+            marks["h2"].cancel()
         fin = loop.time()
         if marks["body_start"] is None:       # cannot happen: the generator always yields
             marks["body_start"] = marks["body_end"] = fin
@@ -830,3 +832,812 @@ def key_throttle(case: dict, o: dict) -> tuple[str, bool]:
            for c, r in zip(o["cycles"], o["outs"])]
     return json.dumps([case["delays"]["kind"], len(case["delays"].get("ticks", [])), case["errors"], seq]), \
         any(r["activated"] is not None or not r["shouldRun"] or r["escaped"] != "none" for r in o["outs"])
+
+
+# =============================================================================================
+# part V — Vault + authenticated + authenticator
+# =============================================================================================
+class World:
+    """Server side of part V: which token is valid until when; the global event log."""
+
+    def __init__(self) -> None:
+        self.invalid_from: dict[int, float] = {}
+        self.events: list[dict] = []
+        self.seq = 0
+
+    def log(self, **kw: Any) -> None:
+        self.seq += 1
+        kw["seq"] = self.seq
+        self.events.append(kw)
+
+    def valid(self, token: int, t: float) -> bool:
+        return t < self.invalid_from.get(token, float("inf"))
+
+
+class TokenSession:
+    """Duck-typed aiohttp session bound to one token. Equality is by token: a login handler that
+    returns the same credential again yields an *equal* (not identical) connection info."""
+
+    def __init__(self, world: World, key: str, token: int, close_lat: int, answers: dict):
+        self.world, self.key, self.token, self.close_lat = world, key, token, close_lat
+        self.answers = answers
+        self.headers: dict[str, str] = {}
+        self.closed = False
+
+    def __eq__(self, other: Any) -> bool:
+        return isinstance(other, TokenSession) and other.token == self.token
+
+    def __hash__(self) -> int:
+        return hash(self.token)
+
+    def __repr__(self) -> str:
+        return f"<session token={self.token}>"
+
+    async def request(self, **kw: Any) -> FakeResp:
+        loop = asyncio.get_running_loop()
+        who = asyncio.current_task().get_name()      # type: ignore[union-attr]
+        if self.closed:
+            self.world.log(ev="attempt-closed", who=who, key=self.key, token=self.token, t=tk(loop.time()))
+            raise RuntimeError("Session is closed")
+        self.world.log(ev="attempt", who=who, key=self.key, token=self.token, t=tk(loop.time()))
+        plan = self.answers.get(who) or []
+        lat, status = plan.pop(0) if plan else (16, 200)
+        if lat:
+            await asyncio.sleep(sec(lat))
+        if not self.world.valid(self.token, loop.time()):
+            self.world.log(ev="401", who=who, key=self.key, token=self.token, t=tk(loop.time()))
+            return FakeResp(401, {}, {"kind": "Status", "code": 401, "message": "Unauthorized"})
+        if status >= 400:
+            return FakeResp(status, {}, {"kind": "Status", "code": status, "message": "scripted"})
+        return FakeResp(status, {}, {})
+
+    async def close(self) -> None:
+        if self.close_lat:
+            await asyncio.sleep(sec(self.close_lat))
+        self.closed = True
+
+
+class Guard:
+    """Proxy of `Vault._guard`: delegates to a real asyncio.Condition and reports every
+    lock-protected segment (who, in which Vault method, how it began, how it ended)."""
+
+    def __init__(self, report: Any) -> None:
+        self.c = asyncio.Condition()
+        self.report = report
+        self.seg: dict | None = None
+
+    def _begin(self, fn: str, how: str) -> None:
+        self.seg = {"who": asyncio.current_task().get_name(), "fn": fn, "how": how, "select": None}   # type: ignore[union-attr]
+
+    def _end(self, end: str, exc: Any = None) -> None:
+        seg, self.seg = self.seg, None
+        if seg is not None:
+            self.report(seg, end, exc)
+
+    async def __aenter__(self) -> None:
+        fn = sys._getframe(1).f_code.co_name
+        await self.c.acquire()
+        self._begin(fn, "acquire")
+
+    async def __aexit__(self, et: Any, ev: Any, tb: Any) -> None:
+        self._end("release", et)
+        self.c.release()
+
+    async def wait_for(self, pred: Any) -> bool:
+        fn = self.seg["fn"] if self.seg else "?"
+        result = pred()
+        while not result:
+            self._end("blocked")
+            try:
+                await self.c.wait()
+            except BaseException:
+                self._begin(fn, "cancelled")
+                raise
+            self._begin(fn, "wake")
+            result = pred()
+        return result
+
+    def notify_all(self) -> None:
+        self.c.notify_all()
+
+    def notify(self, n: int = 1) -> None:
+        self.c.notify(n)
+
+    def locked(self) -> bool:
+        return self.c.locked()
+
+
+def gen_vault(rng: random.Random) -> dict:
+    nkeys = rng.choice([1, 1, 1, 2, 2])
+    keys = [{"prio": rng.choice([0, 0, 0, 1])} for _ in range(nkeys)]
+    if rng.random() < 0.15:
+        init = []                      # the initial authentication
+    else:
+        init = sorted(rng.sample(range(nkeys), rng.choice([1, nkeys])))
+    nreq = rng.choice([1, 2, 3, 3, 4, 5, 6])
+    # tokens get revoked at these times (ticks); `None` = never
+    def life() -> int | None:
+        return rng.choice([None, None, 64, 256, 1000, 1024, 1031, 2048, 3000])
+    logins = []
+    for _ in range(rng.choice([2, 3, 4, 6])):
+        per_key = []
+        for _k in range(nkeys):
+            r = rng.random()
+            what = "fresh" if r < 0.62 else "same" if r < 0.8 else "old" if r < 0.9 else "none"
+            per_key.append({"what": what, "life": life(), "delay": rng.choice([0, 16, 64, 512, 1024])})
+        logins.append(per_key)
+    reqs = []
+    for _ in range(nreq):
+        calls = []
+        for _c in range(rng.choice([1, 1, 2, 3])):
+            calls.append({"gap": rng.choice([0, 0, 1, 16, 500, 1024]),
+                          "answers": [[rng.choice([0, 16, 16, 64, 300]), rng.choice([200, 200, 200, 200, 500, 404, 503])]
+                                      for _a in range(rng.choice([0, 1, 2, 4]))]})
+        reqs.append({"start": rng.choice([0, 0, 1, 16, 64, 990, 1000, 1024, 1030]), "calls": calls})
+    return {"part": "vault", "keys": keys, "init": init, "init_life": [life() for _ in range(nkeys)],
+            "logins": logins, "reqs": reqs, "backoffs": rng.choice([[], [64], [0, 16], [512]]),
+            "close_lat": rng.choice([0, 0, 16])}
+
+
+async def _one_vault(env: dict, case: dict) -> dict:
+    api, auth, credentials, configuration = env["api"], env["auth"], env["credentials"], env["configuration"]
+    activities, indexing, ephemera = env["activities"], env["indexing"], env["ephemera"]
+    registries, handlers, causes, execution, errors = env["registries"], env["handlers"], env["causes"], env["execution"], env["errors"]
+    loop = asyncio.get_running_loop()
+    t_base = loop.time()
+    world = World()
+    nkeys = len(case["keys"])
+    keyname = [f"k{i}" for i in range(nkeys)]
+    next_token = [100]
+    revoked_hist: dict[int, list[int]] = {i: [] for i in range(nkeys)}     # tokens handed out per key, in order
+    answers: dict[str, list] = {}
+
+    def mk(ki: int, token: int, life: int | None) -> Any:
+        if life is not None and token not in world.invalid_from:
+            world.invalid_from[token] = loop.time() + sec(life)
+        revoked_hist[ki].append(token)
+        return credentials.AiohttpSession(server="http://fake", priority=case["keys"][ki]["prio"],
+                                          aiohttp_session=TokenSession(world, keyname[ki], token, case["close_lat"], answers))
+
+    def fresh() -> int:
+        next_token[0] += 1
+        return next_token[0]
+
+    init_src = {keyname[ki]: mk(ki, fresh(), case["init_life"][ki]) for ki in case["init"]}
+    serial: dict[int, int] = {}
+    keep: list[Any] = []
+    counter = [0]
+    labels: list[dict] = []
+    pending_src: list[Any] = [None]
+
+    class TVault(credentials.Vault):
+        def select(self) -> Any:
+            try:
+                k, it = super().select()
+            except credentials.LoginError:
+                if self._guard.seg is not None:
+                    self._guard.seg["select"] = "fail"
+                raise
+            if self._guard.seg is not None:
+                self._guard.seg["select"] = (k, it)
+            return k, it
+
+        async def populate(self, src: Any) -> None:     # type: ignore[override]
+            pending_src[0] = dict(src)
+            await super().populate(src)
+
+    vault = TVault(init_src)
+
+    def number_new(order: list[str]) -> None:
+        for k in order:
+            it = vault._current.get(k)
+            if it is not None and id(it) not in serial:
+                serial[id(it)] = counter[0]
+                counter[0] += 1
+                keep.append(it)
+
+    number_new(list(init_src))
+
+    def tok(item: Any) -> int:
+        return item.info.aiohttp_session.token
+
+    def snapshot() -> dict:
+        cur = sorted([keyname.index(k), serial.get(id(v), -1), tok(v), v.info.priority] for k, v in vault._current.items())
+        inv = [[ki, [tok(v) for v in vault._invalid.get(keyname[ki], [])]] for ki in range(nkeys)]
+        return {"cur": cur, "inv": inv, "ready": vault._ready}
+
+    def emit(label: list, effect: str | None = None, who: str | None = None) -> None:
+        world.seq += 1
+        labels.append({"label": label, "snap": snapshot(), "effect": effect, "seq": world.seq,
+                       "t": tk(loop.time() - t_base)})
+
+    def rid(who: str) -> int | None:
+        return int(who[1:]) if who.startswith("r") and who[1:].isdigit() else None
+
+    def report(seg: dict, end: str, exc: Any) -> None:
+        who, fn, how = seg["who"], seg["fn"], seg["how"]
+        r = rid(who)
+        if how == "cancelled":
+            return
+        if fn == "invalidate" and r is not None:
+            if how == "acquire":
+                emit(["inval", r], "blocked" if end == "blocked" else "raised" if exc is not None else "released")
+            elif end != "blocked":
+                emit(["invalWake", r], "raised" if exc is not None else "released")
+        elif fn == "_items" and r is not None:
+            if end == "blocked":
+                return
+            if seg["select"] == "fail":
+                emit(["acquireFail", r], "raised")
+            elif seg["select"] is not None:
+                k, it = seg["select"]
+                world.log(ev="select", who=who, key=k, token=tok(it), serial=serial.get(id(it), -1))
+                emit(["acquire", r, keyname.index(k)], "released")
+            else:
+                emit(["post", r], "released")
+        elif fn == "wait_for_emptiness":
+            if end != "blocked":
+                emit(["authStart"])
+        elif fn == "populate":
+            src = pending_src[0] or {}
+            number_new([k for k in src])
+            emit(["populate", [[keyname.index(k), tok_info(v), v.priority] for k, v in src.items()]])
+        elif fn in ("extended", "close", "wait_for_readiness"):
+            return
+        else:
+            emit(["unknown-segment", fn, who])
+
+    def tok_info(info: Any) -> int:
+        return info.aiohttp_session.token
+
+    vault._guard = Guard(report)
+    auth.vault_var.set(vault)
+
+    # the traced request function: the raw api.request under the REAL `authenticated`
+    raw = api.request.__wrapped__
+
+    async def traced(*a: Any, **kw: Any) -> Any:
+        who = asyncio.current_task().get_name()      # type: ignore[union-attr]
+        r = rid(who)
+        try:
+            res = await raw(*a, **kw)
+        except (errors.APIUnauthorizedError, errors.APISessionClosed):
+            emit(["unauth", r])
+            raise
+        except asyncio.CancelledError:
+            raise
+        except BaseException:
+            emit(["fail", r])
+            raise
+        emit(["ok", r])
+        return res
+
+    traced.__name__ = "request"
+    request = auth.authenticated(traced)
+
+    # login handlers: the j-th activity run follows logins[j] (then: fresh, immortal tokens)
+    run_no = [0]
+    runs: list[dict] = []
+
+    def make_login(ki: int) -> Any:
+        calls = [0]
+
+        async def login(**_: Any) -> Any:
+            j = calls[0]
+            calls[0] += 1
+            spec = case["logins"][j][ki] if j < len(case["logins"]) else {"what": "fresh", "life": None, "delay": 16}
+            world.log(ev="login", key=keyname[ki], run=j, t=tk(loop.time()))
+            if spec["delay"]:
+                await asyncio.sleep(sec(spec["delay"]))
+            hist = revoked_hist[ki]
+            if spec["what"] == "none":
+                return None
+            if spec["what"] == "same" and hist:
+                return mk(ki, hist[-1], None)
+            if spec["what"] == "old" and hist:
+                return mk(ki, hist[0], None)
+            return mk(ki, fresh(), spec["life"])
+        return login
+
+    registry = registries.OperatorRegistry()
+    registry._activities._handlers.clear()
+    for ki in range(nkeys):
+        registry._activities.append(handlers.ActivityHandler(
+            id=keyname[ki], fn=make_login(ki), activity=causes.Activity.AUTHENTICATION,
+            errors=execution.ErrorsMode.IGNORED, param=None, timeout=None, retries=None, backoff=None, _fallback=False))
+    settings = configuration.OperatorSettings()
+    settings.networking.error_backoffs = [sec(b) for b in case["backoffs"]]
+    auth_task = asyncio.create_task(activities.authenticator(
+        registry=registry, settings=settings, indices=indexing.OperatorIndexers().indices, vault=vault,
+        memo=ephemera.Memo()), name="auth")
+
+    results: dict[int, list[str]] = {}
+
+    async def requester(i: int, spec: dict) -> None:
+        who = f"r{i}"
+        if spec["start"]:
+            await asyncio.sleep(sec(spec["start"]))
+        results[i] = []
+        for call in spec["calls"]:
+            if call["gap"]:
+                await asyncio.sleep(sec(call["gap"]))
+            answers[who] = [list(a) for a in call["answers"]]
+            emit(["start", i])
+            try:
+                await request("get", "/apis/x", settings=settings, logger=env["logger"])
+                results[i].append("ok")
+            except credentials.LoginError:
+                results[i].append("login-error")
+            except RuntimeError as e:
+                results[i].append("impossible" if "impossible state" in str(e) else "error")
+            except Exception:      # noqa: BLE001
+                results[i].append("error")
+
+    tasks = [asyncio.create_task(requester(i, spec), name=f"r{i}") for i, spec in enumerate(case["reqs"])]
+    done, pending = await asyncio.wait(tasks, timeout=600.0)
+    stuck = sorted(int(t.get_name()[1:]) for t in pending)
+    crashed = [repr(t.exception()) for t in done if t.exception() is not None]
+    auth_dead = auth_task.done()
+    for t in list(pending) + [auth_task]:
+        t.cancel()
+    await asyncio.gather(*pending, auth_task, return_exceptions=True)
+    await vault.close()
+    return {"labels": labels, "results": {str(k): v for k, v in results.items()}, "stuck": stuck, "crashed": crashed,
+            "auth_dead": auth_dead, "events": world.events,
+            "init": [[ki, tok_info(init_src[keyname[ki]]), case["keys"][ki]["prio"]] for ki in case["init"]]}
+
+
+PC_AFTER = {  # label kind + effect → the model's pc kind of that requester after the label
+    ("inval", "blocked"): "invalWaiting", ("inval", "released"): "postYield",
+    ("invalWake", "released"): "postYield", ("invalWake", "raised"): "done", ("inval", "raised"): "done",
+    ("acquire", "released"): "using", ("acquireFail", "raised"): "done",
+    ("unauth", None): "invalidating", ("ok", None): "done", ("fail", None): "done", ("start", None): "acquiring",
+}
+
+
+def vault_to_lean(case: dict, obs: dict) -> list:
+    nreq = len(case["reqs"])
+    return ["C12.vault", obs["init"], list(range(len(case["keys"]))), list(range(nreq)), [l["label"] for l in obs["labels"]]]
+
+
+def vault_compare(case: dict, obs: dict, model: Any) -> tuple[Any, Any]:
+    """(implementation view, model view) in the same canonical shape."""
+    impl = {"accepted": len(obs["labels"]), "rejected": None,
+            "states": [[l["snap"]["cur"], l["snap"]["inv"], l["snap"]["ready"]] for l in obs["labels"]],
+            "pcs": [PC_AFTER.get((l["label"][0], l["effect"])) for l in obs["labels"]]}
+    if not (isinstance(model, dict) and "trace" in model):
+        return impl, model
+    tr = model["trace"]
+    states = tr.get("states", [])
+    pcs = []
+    for l, s in zip(obs["labels"], states):
+        lab = l["label"]
+        want = PC_AFTER.get((lab[0], l["effect"]))
+        if want is None or len(lab) < 2 or not isinstance(lab[1], int):
+            pcs.append(want)
+        else:
+            pcs.append(next((p[1] for p in s["pcs"] if p[0] == lab[1]), "?"))
+    mod = {"accepted": tr.get("accepted"), "rejected": tr.get("rejected"),
+           "states": [[s["cur"], s["inv"], s["ready"]] for s in states], "pcs": pcs}
+    return impl, mod
+
+
+def vault_final(case: dict, obs: dict, model: Any) -> tuple[Any, Any]:
+    """last result of every requester: implementation vs. the model's final pcs"""
+    impl = {int(k): (v[-1] if v else None) for k, v in obs["results"].items()}
+    for i in obs["stuck"]:
+        impl[i] = "stuck"
+    states = model["trace"].get("states", []) if isinstance(model, dict) and "trace" in model else []
+    if not states:
+        return impl, impl if not obs["labels"] else None
+    mod = {}
+    for p in states[-1]["pcs"]:
+        if p[1] == "done":
+            mod[p[0]] = p[2]
+        elif p[1] == "idle":
+            continue
+        else:
+            mod[p[0]] = "stuck"
+    return {k: v for k, v in impl.items() if v is not None}, mod
+
+
+def oracle_vault(case: dict, obs: dict) -> list[tuple[str, dict]]:
+    """From the property text, over the label/event log of the real code (no model)."""
+    out = []
+    labels = obs["labels"]
+    # 1. nobody is left blocked, nobody hits the "impossible state", the authenticator is alive
+    if obs["stuck"]:
+        out.append((f"requesters {obs['stuck']} never finished (blocked forever)", {"site": "vault", "shape": "blocked-forever"}))
+    if obs["auth_dead"]:
+        out.append(("the authenticator task died", {"site": "authenticator", "shape": "dead"}))
+    if any("impossible" in v for v in obs["results"].values()):
+        out.append(("a request ended in 'Reached an impossible state'", {"site": "auth.authenticated", "shape": "impossible-state"}))
+    if obs["crashed"]:
+        out.append((f"requester task crashed: {obs['crashed'][:1]}", {"site": "harness", "shape": "crash"}))
+    # 2. single re-authentication: an authentication activity starts only after the vault was emptied by
+    #    a 401 on a credential that was current at that moment (or it was found empty); a 401 that arrives
+    #    for an already replaced credential must not remove or block anything.
+    prev = None
+    holding: dict[int, tuple[int, int]] = {}        # requester → (key, serial) of the yielded item
+    removed_tokens: dict[int, list[int]] = collections.defaultdict(list)   # key → tokens removed by invalidation, in order
+    episodes = 0
+    populated_since_flip = True
+    for l in labels:
+        lab, snap = l["label"], l["snap"]
+        kind = lab[0]
+        if kind == "unknown-segment":
+            out.append((f"an unexpected lock segment in {lab[1]}", {"site": "vault", "shape": "unknown-segment"}))
+        if kind == "acquire":
+            r, ki = lab[1], lab[2]
+            cur = {c[0]: c for c in snap["cur"]}
+            if ki not in cur:
+                out.append(("a credential was yielded that is not in the vault", {"site": "Vault._items", "shape": "yield-not-current"}))
+            else:
+                holding[r] = (ki, cur[ki][1])
+                token = cur[ki][2]
+                if token in removed_tokens[ki][-3:]:
+                    out.append((f"token {token} was served again under key {ki} after it had been invalidated",
+                                {"site": "Vault", "shape": "invalid-reused"}))
+                if any(c[3] > cur[ki][3] for c in snap["cur"]):
+                    out.append(("a lower-priority credential was selected", {"site": "Vault.select", "shape": "priority"}))
+        if kind == "inval" and prev is not None:
+            r = lab[1]
+            before = {c[0]: c for c in prev["cur"]}
+            after = {c[0]: c for c in snap["cur"]}
+            held = holding.get(r)
+            gone = [k for k in before if k not in after]
+            for k in gone:
+                if held is None or (k, before[k][1]) != held:
+                    out.append(("a 401 on an already replaced credential removed a different (fresh) credential",
+                                {"site": "Vault.invalidate", "shape": "stale-401-removed-fresh"}))
+                removed_tokens[k].append(before[k][2])
+            if prev["ready"] and not snap["ready"] and not gone and prev["cur"]:
+                out.append(("a 401 on an already replaced credential triggered a re-authentication",
+                            {"site": "Vault.invalidate", "shape": "stale-401-reauth"}))
+            if l["effect"] == "blocked" and snap["cur"]:
+                out.append(("a request was blocked although valid credentials are available", {"site": "Vault.invalidate", "shape": "blocked-with-credentials"}))
+        if kind == "authStart":
+            episodes += 1
+            if not populated_since_flip:
+                out.append(("two authentication activities for one emptiness episode", {"site": "authenticator", "shape": "double-reauth"}))
+            populated_since_flip = False
+            if snap["ready"] or snap["cur"]:
+                out.append(("re-authentication started while credentials are available", {"site": "authenticator", "shape": "reauth-while-ready"}))
+        if kind == "populate":
+            populated_since_flip = True
+        if kind == "invalWake" and l["effect"] == "released" and not snap["cur"]:
+            out.append(("a blocked request proceeded without credentials", {"site": "Vault.invalidate", "shape": "proceed-empty"}))
+        if kind in ("invalWake", "acquireFail") and l["effect"] == "raised" and snap["cur"]:
+            out.append(("a request failed with LoginError although credentials are available", {"site": "Vault", "shape": "login-error-with-credentials"}))
+        prev = snap
+    # 3. after a re-authentication every blocked request proceeds with a fresh credential: every attempt of
+    #    the fake server's log that follows a populate carries a token that is current (not invalidated
+    #    before the attempt's selection).
+    flips = sum(1 for a, b in zip([{"ready": bool(obs["init"])}] + [l["snap"] for l in labels], [l["snap"] for l in labels])
+                if a["ready"] and not b["ready"]) + (0 if obs["init"] else 1)
+    if episodes > flips:
+        out.append((f"{episodes} authentication activities for {flips} emptiness episodes", {"site": "authenticator", "shape": "episodes>flips"}))
+    # walk events+labels by seq: an attempt must use the credential of the requester's latest selection
+    last_sel: dict[str, dict] = {}
+    for e in sorted(obs["events"], key=lambda x: x["seq"]):
+        if e["ev"] == "select":
+            last_sel[e["who"]] = e
+        elif e["ev"] == "attempt":
+            s = last_sel.get(e["who"])
+            if s is None or s["token"] != e["token"]:
+                out.append(("an attempt carried a credential other than the one selected for it", {"site": "auth.authenticated", "shape": "wrong-credential"}))
+    return out
+
+
+def key_vault(case: dict, obs: dict) -> tuple[str, bool]:
+    kinds = [l["label"][0][:5] + (l["effect"] or "")[:1] for l in obs["labels"]]
+    return json.dumps([len(case["keys"]), len(case["reqs"]), kinds]), any(l["label"][0] == "inval" for l in obs["labels"])
+
+
+# =============================================================================================
+# running cases (in-process or in a pool of shard workers)
+# =============================================================================================
+GEN = {"request": gen_request, "throttle": gen_throttle, "vault": gen_vault}
+
+
+def _env() -> dict:
+    env = _imports()
+    lg = logging.getLogger("verif.c12")
+    lg.setLevel(logging.CRITICAL + 1)
+    lg.propagate = False
+    logging.getLogger("kopf").setLevel(logging.CRITICAL + 1)
+    env["logger"] = lg
+    return env
+
+
+def run_cases(cases: list[dict], wall_limit: float = 900.0) -> list[dict]:
+    """Run the cases on the real code under virtual time; returns one observation per case."""
+    env = _env()
+    simloop = env["simloop"]
+    out: list[dict] = []
+
+    async def main() -> None:
+        for case in cases:
+            if case["part"] == "request":
+                out.append(await _one_request(env, case))
+            elif case["part"] == "throttle":
+                out.append(await _one_throttle(env, case))
+            elif case["part"] == "vault":
+                out.append(await _one_vault(env, case))
+            else:
+                raise ValueError(f"unknown part {case['part']!r}")
+
+    simloop.run_sim(main, wall_limit=wall_limit)
+    return out
+
+
+def judge(case: dict, obs: dict) -> list[tuple[str, dict]]:
+    if case["part"] == "request":
+        return oracle_request(case, obs)
+    if case["part"] == "throttle":
+        fails = []
+        for o in obs["objects"]:
+            fails += oracle_throttle(case, o)
+        return fails
+    return oracle_vault(case, obs)
+
+
+def lean_requests(case: dict, obs: dict) -> list[list]:
+    if case["part"] == "request":
+        return [request_to_lean(case, obs)]
+    if case["part"] == "throttle":
+        return [throttle_to_lean(case, o) for o in obs["objects"]]
+    return [vault_to_lean(case, obs)]
+
+
+def tie_compare(case: dict, obs: dict, answers: list[Any]) -> list[tuple[str, Any, Any]]:
+    """[(what, impl, model)] for every comparison of this case (equal or not)."""
+    res = []
+    models = [a[1] if isinstance(a, list) and len(a) == 2 and a[0] == "ok" else a for a in answers]
+    if case["part"] == "request":
+        impl = {"times": obs["times"], "outcome": obs["outcome"], "fin": obs["fin"]}
+        m = models[0]
+        mod = {k: m[k] for k in ("times", "outcome", "fin")} if isinstance(m, dict) else m
+        res.append(("api.request attempt times and result", impl, mod))
+        if isinstance(m, dict):      # the sleeps are the gaps between an attempt's end and the next attempt
+            gaps = [obs["times"][i + 1] - obs["times"][i] - case["script"][i]["lat"] for i in range(len(obs["times"]) - 1)]
+            res.append(("api.request back-off sleeps", gaps, [max(0, w) for w in m["waits"]]))
+    elif case["part"] == "throttle":
+        for o, m in zip(obs["objects"], models):
+            a, b = throttle_canon(case, o["outs"], m if isinstance(m, list) else [m])
+            res.append(("throttled cycle outputs", a, b))
+    else:
+        m = models[0]
+        a, b = vault_compare(case, obs, m)
+        res.append(("vault trace acceptance and state after every label", a, b))
+        a, b = vault_final(case, obs, m)
+        res.append(("vault requesters' final results", a, b))
+    return res
+
+
+def case_key(case: dict, obs: dict) -> tuple[str, bool]:
+    if case["part"] == "request":
+        return key_request(case, obs)
+    if case["part"] == "throttle":
+        keys = [key_throttle(case, o) for o in obs["objects"]]
+        return json.dumps([k for k, _ in keys]), any(nt for _, nt in keys)
+    return key_vault(case, obs)
+
+
+def histogram(case: dict, obs: dict, hist: dict) -> None:
+    def c(g: str, t: Any, n: int = 1) -> None:
+        hist.setdefault(g, {})
+        hist[g][str(t)] = hist[g].get(str(t), 0) + n
+    c("part", case["part"])
+    if case["part"] == "request":
+        c("request.backoffs", case["backoffs"]["kind"])
+        c("request.attempts", len(obs["times"]))
+        c("request.outcome", obs["outcome"])
+        c("request.enforce_retry_after", case["enforce"])
+        for a in case["script"][:len(obs["times"])]:
+            c("request.fault", a["status"] if a["kind"] == "http" else a["exc"])
+            if a["kind"] == "http" and a["status"] == 429:
+                c("request.retry_after", ("header" if a.get("hdr") else "") + ("+details" if a.get("det") else "") or "none")
+    elif case["part"] == "throttle":
+        c("throttle.delays", case["delays"]["kind"])
+        c("throttle.objects", len(case["objects"]))
+        for o in obs["objects"]:
+            c("throttle.cycles", len(o["outs"]))
+            for cy, r in zip(o["cycles"], o["outs"]):
+                c("throttle.body", cy["body"])
+                c("throttle.should_run", r["shouldRun"])
+                c("throttle.escaped", r["escaped"])
+                c("throttle.activated", r["activated"])
+                c("throttle.interrupted", r["st"]["until"] is not None)
+    else:
+        c("vault.requesters", len(case["reqs"]))
+        c("vault.keys", len(case["keys"]))
+        c("vault.trace_length", (len(obs["labels"]) // 10) * 10)
+        for l in obs["labels"]:
+            c("vault.label", l["label"][0] + ("/" + l["effect"] if l["effect"] else ""))
+        c("vault.episodes", sum(1 for l in obs["labels"] if l["label"][0] == "authStart"))
+        c("vault.concurrent_401", max([0] + [sum(1 for l in obs["labels"] if l["label"][0] == "inval" and l["effect"] == "blocked")]))
+        for v in obs["results"].values():
+            for x in v:
+                c("vault.result", x)
+
+
+def evaluate(cases: list[dict], with_lean: bool = True) -> dict:
+    """Run cases, judge them, (optionally) compare with the Lean model. Pure function of the cases."""
+    observations = run_cases(cases)
+    res: dict[str, Any] = {"n": len(cases), "keys": [], "oracle": [], "tie": [], "hist": {}, "samples": [],
+                           "comparisons": 0, "traces": 0, "lean_error": None}
+    reqs: list[list] = []
+    spans = []
+    for case, obs in zip(cases, observations):
+        for what, sig in judge(case, obs):
+            res["oracle"].append({"what": what, "signature": sig, "replay": {"case": case, "impl": _brief(case, obs)}})
+        k, nt = case_key(case, obs)
+        res["keys"].append((k, nt))
+        histogram(case, obs, res["hist"])
+        lr = lean_requests(case, obs) if with_lean else []
+        spans.append((len(reqs), len(reqs) + len(lr)))
+        reqs += lr
+    if with_lean and reqs:
+        try:
+            answers = leanio.Driver().ask(reqs)
+        except leanio.LeanError as e:
+            res["lean_error"] = f"{e}: {e.log[-1500:]}"
+            return res
+        for case, obs, (a, b) in zip(cases, observations, spans):
+            for what, impl, model in tie_compare(case, obs, answers[a:b]):
+                res["comparisons"] += 1
+                if leanio.canon(impl) != leanio.canon(model):
+                    if len(res["tie"]) < 20:
+                        res["tie"].append({"what": what, "replay": {"case": case, "impl": impl, "model": model}})
+            res["traces"] += 1
+    for case, obs in list(zip(cases, observations))[:2]:
+        res["samples"].append({"case": case, "impl": _brief(case, obs)})
+    return res
+
+
+def _brief(case: dict, obs: dict) -> Any:
+    if case["part"] == "request":
+        return {k: obs[k] for k in ("t0", "times", "outcome", "fin", "exc", "status")}
+    if case["part"] == "throttle":
+        return [o["outs"] for o in obs["objects"]]
+    return {"labels": [[l["label"], l["effect"], l["t"]] for l in obs["labels"]][:200], "results": obs["results"],
+            "stuck": obs["stuck"]}
+
+
+def _shard(args: tuple) -> dict:
+    seed, counts, with_lean = args
+    rng = random.Random(seed)
+    cases = []
+    for part, n in counts:
+        for _ in range(n):
+            cases.append(GEN[part](rng))
+    return evaluate(cases, with_lean)
+
+
+def _absorb(ctx: Ctx, res: dict, oracle_only: bool = False) -> None:
+    for k, nt in res["keys"]:
+        ctx.case(key=k, nontrivial=nt)
+    for s in res["samples"]:
+        if len(ctx.samples) < 6:
+            ctx.samples.append(s)
+    for g, d in res["hist"].items():
+        for t, n in d.items():
+            ctx.count(g, t, n)
+    for f in res["oracle"]:
+        ctx.oracle_fail(f["what"], f["replay"], f["signature"])
+    if oracle_only:
+        return
+    if res["lean_error"]:
+        ctx.tie_fail("Lean driver failed: " + res["lean_error"], {})
+    ctx.tie_comparisons += res["comparisons"]
+    ctx.traces += res["traces"]
+    for t in res["tie"]:
+        if sum(1 for f in ctx.failures if f.kind == "tie") < 50:
+            ctx.tie_fail(f"{t['what']}: implementation and model differ", t["replay"])
+
+
+def _plan(ctx: Ctx, total: int, shards: int) -> list[tuple]:
+    per = {"request": int(total * 0.5), "throttle": int(total * 0.3), "vault": total - int(total * 0.5) - int(total * 0.3)}
+    jobs = []
+    for i in range(shards):
+        counts = [(p, n // shards + (1 if i < n % shards else 0)) for p, n in per.items()]
+        jobs.append((f"C12-{ctx.seed}-{ctx.rng.random()}-{i}", counts, True))
+    return jobs
+
+
+def _pool_map(jobs: list[tuple], workers: int) -> list[dict]:
+    import concurrent.futures as cf
+    if workers <= 1 or len(jobs) <= 1:
+        return [_shard(j) for j in jobs]
+    mp = multiprocessing.get_context("fork")
+    with cf.ProcessPoolExecutor(max_workers=workers, mp_context=mp) as ex:
+        return list(ex.map(_shard, jobs))
+
+
+def run(ctx: Ctx) -> None:
+    from ..core import load_corpus
+    corpus = [(n, d) for n, d in load_corpus(ID)]
+    if corpus:
+        res = evaluate([d["case"] for _, d in corpus])
+        _absorb(ctx, res)
+        ctx.count("corpus", "cases", len(corpus))
+    total = ctx.budget(2000, 100_000)
+    workers = min(16, os.cpu_count() or 1, max(1, total // 250))
+    shards = workers * (4 if ctx.tier == "thorough" else 1)
+    for res in _pool_map(_plan(ctx, total, shards), workers):
+        _absorb(ctx, res)
+    # the finite table of check_response, exhaustively: every status 100..1000 through the real code
+    _status_table(ctx)
+
+
+def _status_table(ctx: Ctx) -> None:
+    """every status 100..1000 through the real check_response, against the model and the property"""
+    from kopf._cogs.clients import errors
+
+    async def one(status: int) -> str:
+        try:
+            await errors.check_response(FakeResp(status, {}, None, ""))      # type: ignore[arg-type]
+        except Exception as e:      # noqa: BLE001
+            return outcome_class(e)
+        return "ok"
+
+    async def all_() -> list[str]:
+        return [await one(s) for s in range(100, 1001)]
+
+    got = asyncio.run(all_())
+    reqs = [["C12.classify", s] for s in range(100, 1001)]
+    try:
+        outs = ctx.driver.ask(reqs)
+    except leanio.LeanError as e:
+        ctx.tie_fail(f"Lean driver failed: {e}", {"log": e.log[-1500:]})
+        return
+    names = {"notFound": "not-found", "tooMany": "too-many", "apiError": "api-error"}
+    for s, g, o in zip(range(100, 1001), got, outs):
+        m = o[1] if o and o[0] == "ok" else o
+        model = (m["cls"] if m["raises"] else "ok") if isinstance(m, dict) else m
+        ctx.compare("check_response class", g, model, {"status": s})
+        ctx.case(key=f"status-{g}-{s // 100}", nontrivial=g != "ok")
+        want = "ok" if s < 400 else {401: "unauthorized", 403: "forbidden", 404: "not-found", 409: "conflict",
+                                     422: "unprocessable", 429: "too-many"}.get(s, "client" if s < 500 else "server" if s < 600 else "api-error")
+        if g != want:
+            ctx.oracle_fail(f"status {s} raised as {g}, expected {want}", {"status": s}, {"site": "check_response", "shape": f"{want}->{g}"})
+    ctx.count("status_table", "statuses", len(got))
+
+
+def search(ctx: Ctx, broken: list) -> None:
+    """A proof/tie is broken and the oracle saw nothing: 10x budget, oracle only; cases near the
+    first disagreeing input first."""
+    near = []
+    for b in broken:
+        rep = b.replay if isinstance(b.replay, dict) else {}
+        case = rep.get("case") or (rep.get("input") or {}).get("case")
+        if isinstance(case, dict) and "part" in case:
+            near.append(case)
+    if near:
+        res = evaluate(near[:50], with_lean=False)
+        _absorb(ctx, res, oracle_only=True)
+        if res["oracle"]:
+            return
+    total = ctx.budget(2000, 100_000) * (10 if ctx.tier == "quick" else 2)
+    workers = min(16, os.cpu_count() or 1)
+    jobs = [(j[0] + "-search", j[1], False) for j in _plan(ctx, total, workers * 4)]
+    for res in _pool_map(jobs, workers):
+        _absorb(ctx, res, oracle_only=True)
+        if res["oracle"]:
+            return
+
+
+def replay(ctx: Ctx, data: dict) -> None:
+    rep = data.get("replay") or {}
+    case = rep.get("case") or (rep.get("input") or {}).get("case") or (rep.get("first") or {}).get("case")
+    if not isinstance(case, dict):
+        if "status" in rep:
+            _status_table(ctx)
+            return
+        print("replay file carries no case (a broken obligation without a failing input)", file=sys.stderr)
+        return
+    res = evaluate([case], with_lean=False)
+    for f in res["oracle"]:
+        print("still fails:", f["what"])
+    _absorb(ctx, res, oracle_only=True)
